@@ -108,3 +108,24 @@ func SubsetOf(u []string, mask int) []string {
 	}
 	return out
 }
+
+// SuffixPair returns a name N and a proper suffix K of it (K = N[1:]) whose
+// murmur3-64 hashes agree in their top `bits` bits, i.e. K descends through the
+// same buckets as N for bits/log2(fanout) levels. With N a member and K not,
+// a lookup of K reaches N's value link: only an exact name comparison tells
+// them apart. The root bucket (fanout 8) differs from that of `avoid`.
+func SuffixPair(bits int, avoid string) (n, k string) {
+	ab, _ := model.Bucket(model.Hash64(avoid), 0, 3)
+	for i := 0; ; i++ {
+		k = fmt.Sprintf("s%d.txt", i)
+		n = "~" + k
+		hn, hk := model.Hash64(n), model.Hash64(k)
+		if hn>>(64-uint(bits)) != hk>>(64-uint(bits)) {
+			continue
+		}
+		if b, _ := model.Bucket(hn, 0, 3); b == ab {
+			continue
+		}
+		return n, k
+	}
+}
